@@ -363,6 +363,7 @@ impl Ctx {
         if is_cli && (self.copia.is_none() || self.checked) {
             return;
         }
+        self.out.inflight(&format!("{} {} {}", self.id, kind, args.join(" ")));
         let res: String = match kind {
             "HDR" => {
                 let b = unhex(args[0]);
